@@ -253,6 +253,43 @@ def search(ck, tier, seed):
                     ck.finding("gradient:wrong:%s:training" % name,
                                "%s (training mode, pinned dropout mask): tensor %d entry %d: autograd %r, finite difference %r" % (name, k, i, a, d), case)
                     break
+    # parameters collected BEFORE the first training call (as an optimiser built right after construction holds them): the
+    # data-dependent initialisation happens inside that call; the objects collected before it are still the model's parameters
+    # afterwards and receive the gradient
+    from nflows.transforms import normalization as norm2_, base as base2_, lu as lu2_
+    from nflows.flows.base import Flow as Flow2_
+    from nflows.distributions import normal as normal2_
+
+    def first_call_models():
+        yield "ActNorm", lambda: norm2_.ActNorm(3), [3]
+        yield "ActNorm(image)", lambda: norm2_.ActNorm(2), [2, 2, 3]
+        yield "Composite(ActNorm, LULinear, ActNorm)", lambda: base2_.CompositeTransform([norm2_.ActNorm(3), lu2_.LULinear(3, identity_init=False), norm2_.ActNorm(3)]), [3]
+        yield "Flow(Composite(ActNorm, BatchNorm), StandardNormal)", lambda: Flow2_(base2_.CompositeTransform([norm2_.ActNorm(3), norm2_.BatchNorm(3)]), normal2_.StandardNormal([3])), [3]
+    for name, mk, shape in first_call_models():
+        torch.manual_seed(seed)
+        mdl = mk().double().train()
+        held = [(n_, p_) for n_, p_ in mdl.named_parameters()]
+        g = tgen(seed, "c16first", name)
+        x = torch.randn([8] + shape, generator=g, dtype=torch.float64) * 1.7 + 0.4
+        ck.case(("c16-first-call", name), nontrivial=True)
+        case = {"search": "parameters-held-before-first-call", "model": name, "seed": seed}
+        out = attempt(lambda: mdl.log_prob(x).sum() if hasattr(mdl, "log_prob") else sum((v * v).sum() for v in mdl(x)))
+        if out[0] != "ok":
+            continue
+        now = dict(mdl.named_parameters())
+        replaced = [n_ for n_, p_ in held if now.get(n_) is not p_]
+        if replaced:
+            ck.finding("gradient:parameters-replaced-by-first-call:%s" % name,
+                       "%s: after the first training-mode call %s are NEW parameter objects; the ones collected before it are no longer part of the model"
+                       % (name, replaced), case)
+            continue
+        gr = attempt(torch.autograd.grad, out[1], [p_ for _, p_ in held], allow_unused=True)
+        if gr[0] != "ok":
+            ck.finding("gradient:backward-fails:%s:first-call" % name, "%s: %s %s" % (name, gr[1], str(gr[2])[:160]), case)
+            continue
+        missing = [n_ for (n_, _), gv in zip(held, gr[1]) if gv is None or not bool(torch.isfinite(gv).all())]
+        if missing:
+            ck.finding("gradient:missing:%s:parameter:first-call" % name, "%s: no finite gradient for %s on the first training call" % (name, missing), case)
     # flows: log_prob gradients w.r.t. parameters, inputs and context
     from nflows.flows.base import Flow
     from nflows.distributions import normal
